@@ -1,5 +1,5 @@
 //! C20: endian wrappers.  case: type(0..7 = Le16 Le32 Le64 LeSize Be16 Be32 Be64 BeSize) v x
-//! obs: [bytes in guest memory after write_obj(wrapper)] to_native (w==x) (x==w) size align native_size native_align routes_agree
+//! obs: [bytes in guest memory after write_obj(wrapper)] to_native (w==x) (x==w) (w!=x) (x!=w) size align native_size native_align routes_agree
 use crate::tok::{n, us};
 use crate::{Rng, Suite, Tier, Tok};
 use std::mem::{align_of, size_of};
@@ -49,6 +49,8 @@ macro_rules! run {
             n(native as u64),
             Tok::b(w == x),
             Tok::b(x == w),
+            Tok::b(w != x),
+            Tok::b(x != w),
             us(size_of::<$W>()),
             us(align_of::<$W>()),
             us(size_of::<$U>()),
